@@ -558,7 +558,8 @@ def gen_inputs(tier, rng):
                     yield {"op": "hdu2", "flip": flip, "kd": kd, "vals": vals, "mask": mk, "sc": sc}
                 yield {"op": "filem2", "flip": flip, "mask": mask, "sc": sc, "fs0": E, "p": [10], "abs": False, "ow": False, "k": 0, "rs": None, "inv": (h * w) % 2 == 1}
                 yield {"op": "hdum2", "flip": flip, "mask": mask, "sc": sc}
-                yield {"op": "util2", "flip": flip, "fs0": E, "arr": vals, "p": [1, 2, 10], "abs": False, "ow": w % 2 == 0, "hd": [["PIXSCALE", 2.0]] if h % 2 else [], "k": 0}
+                yield {"op": "util2", "flip": flip, "fs0": E, "arr": vals, "p": [1, 2, 10], "abs": False, "ow": w % 2 == 0, "hd": [["PIXSCALE", 2.0]] if h % 2 else [], "k": 0,
+                       "again": [[11], [1, 11], [3, 10]][(h + w) % 3]}
     nmax = 9 if big else 6
     for n in range(1, nmax + 1):
         vals = content1(n); mask = [False] * n
@@ -569,7 +570,7 @@ def gen_inputs(tier, rng):
                 yield {"op": "hdu1", "flip": flip, "vals": vals, "mask": mk, "sc": 0.5}
             yield {"op": "filem1", "flip": flip, "mask": mask, "sc": 2.0, "fs0": E, "p": [10], "abs": False, "ow": False, "k": 0}
             yield {"op": "hdum1", "flip": flip, "mask": mask, "sc": 2.0}
-            yield {"op": "util1", "flip": flip, "fs0": E, "arr": vals, "p": [1, 10], "abs": True, "ow": False, "hd": [["PIXSCALE", 0.25]], "k": 0}
+            yield {"op": "util1", "flip": flip, "fs0": E, "arr": vals, "p": [1, 10], "abs": True, "ow": False, "hd": [["PIXSCALE", 0.25]], "k": 0, "again": [2, 11]}
     # 2. all boolean masks of the small shapes
     lim = 9 if big else 6
     i = 0
